@@ -445,7 +445,11 @@ func checkHeadered(c *fw.Ctx) {
 	}
 	if fn := mustFunc(c, rule, "(*eventV1).ToHeaderedJSON"); fn != nil {
 		set, nonConst := constStringArgs(fn, func(n string) bool { return strings.HasPrefix(n, "github.com/tidwall/sjson.Set") }, 1)
-		c.Check(nonConst == 0 && sameSet(set, keys), rule, "ToHeaderedJSON writes exactly {_event_id, _room_version}", c.P.Pos(fn.Pos()), "", "writes "+strings.Join(sortedSet(set), ","))
+		if nonConst > 0 || len(set) == 0 {
+			c.Undecided(rule, "ToHeaderedJSON writes exactly {_event_id, _room_version}", "the written member names could not be resolved to constants in ToHeaderedJSON (resolved: "+strings.Join(sortedSet(set), ",")+")")
+		} else {
+			c.Check(sameSet(set, keys), rule, "ToHeaderedJSON writes exactly {_event_id, _room_version}", c.P.Pos(fn.Pos()), "", "writes "+strings.Join(sortedSet(set), ","))
+		}
 		for _, call := range fw.CallsTo(fn, false, func(n string) bool { return strings.HasPrefix(n, "github.com/tidwall/sjson.Set") }) {
 			k, _ := fw.ConstString(call.Common().Args[1])
 			v := fw.Sig(call.Common().Args[2])
